@@ -38,7 +38,17 @@ P = {'id': 'C18',
               'is_idle_window_exists',
               'global_reduce_is_fold',
               'global_reduce_chunks_partition',
-              'global_reduce_error_surfaces'],
+              'global_reduce_error_surfaces',
+              'yield_loops_are_map',
+              'yield_points_return',
+              'batch_process_is_concat',
+              'buffered_order',
+              'buffered_settle_is_schedule',
+              'stage_process_batch_is_map',
+              'blob_batch_roundtrip',
+              'store_ops',
+              'shutdown_refuses',
+              'yield_budget_history'],
  'trusted': ['modelled (M+S): src/concurrency/work_stealing.rs WorkStealingQueue::{push_local, pop_local, steal, balance, len} and '
              'WorkStealingExecutor::{submit, find_task, one worker_loop iteration incl. the periodic balance, total_queued, is_idle} with every queue '
              'operation one atomic step, and (ModelExec.v) the same executor with submit() split into its three critical sections for any number of '
@@ -50,10 +60,18 @@ P = {'id': 'C18',
              'chunk_size = ceil(len / num_cpus), one task per chunk, join_all, final fold); src/concurrency/pipeline.rs (ModelPipe.v) '
              'Pipeline::process_batch (both paths, error identities, statistics as written), execute_single, execute_two_stage, execute_stream as stage '
              'processes over FIFO channels with per-item outcomes Ok / Err(e) / timeout / panic and the join loop (first error in stage order), '
-             'BatchCollector::{add, flush, check_timeout} with a clock and check_timeout split into its two critical sections',
+             'BatchCollector::{add, flush, check_timeout} with a clock and check_timeout split into its two critical sections; '
+             'src/concurrency/fiber_yield.rs + fiber_aio.rs (ModelYield.v): FiberYield::{yield_now, force_yield} (u8 budget, total_yields), '
+             'YieldPoint::{new, checkpoint, yield_now}, the loops of CooperativeUtils::{run_with_yield, process_vec_yielding}, '
+             'YieldingIterator::{for_each, collect} and FiberIoUtils::batch_process (chunks(max(1, batch_size)), one suspension per chunk) as traces of '
+             'function calls and suspensions, and the `buffered(max(1, max_concurrent))` window of CooperativeUtils::concurrent_with_yield / '
+             'FiberIoUtils::process_files_parallel as a state machine (start / complete / hand over, head-of-line blocking), then the `?` loop over the results; '
+             'the stages\' own process_batch (trait default of MapStage / FilterStage / BatchMapStage, BatchMapStage with a batch function); '
+             'src/concurrency/async_blob_store.rs (ModelStore.v): AsyncMemoryBlobStore::{new, put, get, remove, len, put_batch, get_batch} with '
+             'next_id from 1 truncated to the u32 RecordId, the HashMap as an association list; the trait default put_batch / get_batch as the same '
+             'sequence of puts / gets; WorkStealingExecutor::shutdown and the shutdown check of submit() (ModelLife.v); histories on one FiberYield / YieldPoint; BatchCollector over unit / u8 / String items (collector model of Model.v)',
              'spec-only cells (direct oracle, no mechanism model): the running executor on current-thread and multi-thread tokio runtimes, one queue under '
-             'OS threads, BatchCollector with its background timeout checker on two threads, CooperativeUtils::*, '
-             'YieldingIterator, FiberIoUtils::*, AsyncMemoryBlobStore::put_batch/get_batch; panicking stage functions in process_batch / execute_single '
+             'OS threads, BatchCollector with its background timeout checker on two threads; panicking stage functions in process_batch / execute_single '
              '(the panic propagates to the caller); oracle breadth (harness/src/c18_wide*.rs, no mechanism model): the queue / executor cells with '
              'ClosureTask, submit_closure and a Task with the trait\'s default methods; executor lifecycles (waves, shutdown, submissions after it); the '
              'process-wide executor (init_concurrency / global); histories of many operations on one FiberPool, one Pipeline and one blob store (presets, '
@@ -88,8 +106,13 @@ P = {'id': 'C18',
                'queue histories, hook-driven executor histories (all interleavings of small shape, with is_idle and queue-length observers), single-worker '
                'execution orders with the counters, fiber-pool histories with gated bodies (statistics and finished handles after every step), '
                'parallel_map/for_each/reduce execution orders, call traces and statistics, process_batch / execute_single / execute_stream results with error '
-               'identities and statistics, and BatchCollector histories against the real clock, all evaluated in Coq. The running executor, one queue under OS '
-               'threads, the collector with its background checker and the yield/aio helpers are decided by a counting oracle only (S-only).',
+               'identities and statistics, BatchCollector histories against the real clock, the yielding loops driven by hand (every Poll::Pending is a suspension: the exact interleaving of '
+               'function calls and suspensions) and the buffered window over gated operations (operations started after every gate), all evaluated in Coq. '
+               'Yield helpers: for every function, input and interval the loops return the function applied in input order, call it exactly once per item up to '
+               'the first failure, every suspension returns; batch_process hands the processor a partition of the input and concatenates in order; the buffered '
+               'window emits in input order under every completion order and is never stuck. The running executor, one queue under OS '
+               'threads, the collector with its background checker are decided by a counting oracle only (S-only). Blob store: get_batch(put_batch(ds)) = ds with fresh, '
+               'distinct ids after every history (below 2^32 ids), tied to the code by store histories evaluated in Coq.',
  'level_note': 'Trusted: Coq kernel + vm_compute; hand-written model; atomicity of the mutex-protected queue operations; harness generators and counting oracle; '
                'tokio is not modelled.',
  'technique': 'Coq proof by induction over histories (Permutation invariants, sortedness invariant, measure argument for draining, schedule construction for '
